@@ -90,9 +90,16 @@ var c01gens = map[string]func(t *rapid.T) c01case{
 	"transaction": func(t *rapid.T) c01case {
 		hd := genBytes(t, "hdr", 12)
 		nf := rapid.IntRange(0, 40).Draw(t, "nfields")
+		if rapid.IntRange(0, 9).Draw(t, "manyfields") == 0 {
+			// list replies carry one field per record: counts around and beyond one byte's worth
+			nf = rapid.SampledFrom([]int{255, 256, 257, 300, 511, 512, 1000}).Draw(t, "nfieldsBig")
+		}
 		maxField := 65535
 		if nf > 4 {
 			maxField = 2048
+		}
+		if nf > 100 {
+			maxField = 40
 		}
 		var fs []hotline.Field
 		rt := hlref.Tran{Flags: hd[0], IsReply: hd[1], Type: hlref.U16(hd[2:4]), ID: binary.BigEndian.Uint32(hd[4:8]), Err: binary.BigEndian.Uint32(hd[8:12])}
